@@ -77,7 +77,7 @@ func (r *patReader) Read(p []byte) (int, error) {
 
 func jobC14(c *rt.Ctx) {
 	c.Require("gen/ok", "gen/fail", "equal/flip", "equal/same", "equal/foreign", "accessor")
-	pats := [][]int{{0}, {1}, {31, 1}, {16, 16}, {33}, {64}, {7, 0}, {-1, 5}, {-1, -1, 32}}
+	pats := [][]int{{0}, {1}, {31, 1}, {16, 16}, {33}, {64}, {7, 0}, {-1, 5}, {-1, -1, 32}, {-1, 1}, {-1, -1, -1, -1, -1, 1}}
 	stream := make([]byte, 96)
 	for i := range stream {
 		stream[i] = byte(i*11 + 5)
